@@ -237,6 +237,12 @@ def merge_family(ctx, exe_r):
         gs.append(txt("S: 'a' %s 'c' | 'a' %s 'x' | 'a' %s 'd' | 'b' %s 'x' | 'b' %s 'c' | 'y' Q; %s: 'e'; Q: 'q' | 'q' 'q'; %s: 'e';"
                       % (e, e, f, e, f, e, f)))
         gs.append(txt("S: 'a' %s 'a' | 'b' %s 'b' | 'a' %s 'b' | 'b' %s 'a'; %s: 'e'; %s: 'e';" % (e, e, f, f, e, f)))
+    # grammars on which Pager's garbage collection runs / rare construction shapes (which width collects can differ:
+    # the item-map hash order depends on the key width), compared across widths like the others
+    for src, _, _ in gg.rare_shape_corpus():
+        gs.append(gg.from_text(src))
+    for src in gg.gc_corpus()[:ctx.n(40, 120)] + gg.gc_chain_corpus()[:ctx.n(15, 60)]:
+        gs.append(gg.from_text(src))
     n = ctx.n(18, 120)
     for i in range(n):
         gs.append(gg.not_lalr_template(rng))
